@@ -3,6 +3,7 @@ functions, CFGs, small helpers used by the rules."""
 import ast
 import os
 
+from . import alpha
 from .cfg import CFG, walk_noscope
 from .report import REPO, AnalysisError, where
 
@@ -76,6 +77,8 @@ class Repo:
                     tree = ast.parse(text, filename=p)
                 except SyntaxError as e:
                     raise AnalysisError("cannot parse %s: %s" % (rel, e))
+                if os.environ.get("VERIF_NO_ALPHA") != "1":
+                    alpha.normalise_module(tree, rel)
                 self.modules[rel] = tree
                 self.sources[rel] = text
                 self.funcs[rel] = {}
@@ -252,6 +255,8 @@ class F:
 
     # -- node selectors (return CFG node ids) --
     def calls(self, name, exact=False):
+        name = alpha.resolve_dotted(name, self.fn)
+
         def pred(n):
             if not isinstance(n, ast.Call):
                 return False
@@ -262,6 +267,7 @@ class F:
         return self.g.find(pred)
 
     def call_nodes(self, name, exact=False):
+        name = alpha.resolve_dotted(name, self.fn)
         out = []
         for c in calls_in(self.fn):
             d = dotted(c.func)
@@ -272,6 +278,7 @@ class F:
     def assigns(self, target, prefix=False, aug=None):
         """CFG nodes that assign to dotted `target` (Assign/AugAssign/AnnAssign; subscript stores
         count as writes to `target[]`)."""
+        target = alpha.resolve_dotted(target, self.fn)
         out = []
         for n, d in self.g.g.nodes(data=True):
             a = d["ast"]
@@ -288,11 +295,18 @@ class F:
         return out
 
     def tests(self, text_pred):
-        """test nodes (if/while) whose condition source satisfies text_pred."""
+        """test nodes (if/while) whose condition satisfies text_pred: a predicate on the source text, or a pattern string /
+        tuple of pattern strings matched structurally (alias-resolved, see engine/alpha.py)."""
+        from . import astq
         out = []
         for n, d in self.g.g.nodes(data=True):
             if d["kind"] in ("test", "loop") and d["expr"]:
-                if text_pred(src(d["expr"][0])):
+                if callable(text_pred):
+                    hit = text_pred(src(d["expr"][0]))
+                else:
+                    pats = (text_pred,) if isinstance(text_pred, str) else text_pred
+                    hit = any(astq.match(p_, d["expr"][0]) is not None for p_ in pats)
+                if hit:
                     out.append(n)
         return out
 
